@@ -8,6 +8,7 @@ Layers (= harness names = second component of violation keys):
   endpoint-copy / endpoint-buffered     AsyncStreamEndpoint.recv_packet (StreamProtocol / BufferedStreamProtocol)
   client-copy / client-buffered         AsyncTCPNetworkClient.recv_packet
   client-iter-copy / -buffered          AsyncTCPNetworkClient.iter_received_packets(timeout)
+  tls-recv / tls-recv_into              AsyncTLSStreamTransport.recv / recv_into over the adapter, reference TLSPeer, cipher-text via AlignedFeed
   server-copy / server-buffered         real AsyncTCPNetworkServer, handler does ``request = yield timeout``
   blocking-endpoint-copy / -into            blocking StreamEndpoint.recv_packet(timeout) ending in TimeoutError
 (the thread scheduler does not exist yet; threaded harnesses can be added as further Harness entries built on
@@ -176,6 +177,26 @@ class _Ledger:
         self.eof = False
         self.violation: Violation | None = None
         self.ops = 0
+        # TLS layers: the feed carries cipher-text; entry k of feed.log (FIN excluded) made cum_map[k] stream bytes readable
+        self.cum_map: list[int] | None = None
+        self.eof_ok: Callable[[], bool] = lambda: feed.fin_done  # may EOF be reported now?
+
+    def arrivals(self) -> list[tuple[float, int, int]]:
+        """[(time, loop iteration, cumulative stream bytes readable)] (FIN: -1)"""
+        if self.cum_map is None:
+            return list(self.feed.log)
+        out = []
+        k = 0
+        for t, it, cum in self.feed.log:
+            if cum < 0:
+                out.append((t, it, -1))
+            else:
+                out.append((t, it, self.cum_map[k]))
+                k += 1
+        return out
+
+    def visible(self) -> int:
+        return max([c for _, _, c in self.arrivals()] + [0])
 
     # ---- schedule
     def next_cancel(self) -> tuple[str, int] | None:
@@ -211,7 +232,7 @@ class _Ledger:
         self.world.log("cancelled", self.plan.layer, kind)
         # coverage probe: a chunk became visible at the very instant of this cancellation, d loop iterations before it was noticed
         it = self.world.counters["loop_iterations"]
-        for t, a, cum in self.feed.log:
+        for t, a, cum in self.arrivals():
             if t == now and cum >= 0:
                 self.world.probe(f"tie:{kind}:arrival-{min(it - a, 4)}-iterations-before-notice")
 
@@ -221,7 +242,7 @@ class _Ledger:
         self.got += data
         self.world.log("got", self.plan.layer, len(data))
         self.world.progress(1)
-        if self.stream[i : i + len(data)] != data or len(self.got) > self.feed.total:
+        if self.stream[i : i + len(data)] != data or len(self.got) > self.visible():
             self.fail("prefix")
             return False
         return True
@@ -229,7 +250,7 @@ class _Ledger:
     def record_eof(self) -> None:
         self.eof = True
         self.world.log("eof", self.plan.layer)
-        if not self.feed.fin_done:
+        if not self.eof_ok():
             self.fail("early-eof")
         elif bytes(self.got) != self.stream:
             self.fail("final")
@@ -269,7 +290,7 @@ class _Ledger:
         hi = i + self.plan.codec.maxlen
         prev = 0
         arrivals = []
-        for t, _, cum in self.feed.log:
+        for t, _, cum in self.arrivals():
             if cum >= 0:
                 if cum > lo and prev < hi:
                     arrivals.append(t)
@@ -279,8 +300,8 @@ class _Ledger:
         key = f"C10/{self.plan.layer}/{what}/{site}"
         msg = (
             f"layer={self.plan.layer} check={where} first divergence at stream offset {i}: returned ...{got[max(0, i - 8):i + 12]!r} "
-            f"expected ...{stream[max(0, i - 8):i + 12]!r}; returned {len(got)} of {len(stream)} bytes (visible {self.feed.total}); "
-            f"chunk arrivals (t, loop iteration, cumulative)={[(round(t * 64, 3), it, c) for t, it, c in self.feed.log]} in 1/64 s; "
+            f"expected ...{stream[max(0, i - 8):i + 12]!r}; returned {len(got)} of {len(stream)} bytes (visible {self.visible()}); "
+            f"chunk arrivals (t, loop iteration, cumulative)={[(round(t * 64, 3), it, c) for t, it, c in self.arrivals()]} in 1/64 s; "
             f"cancellations noticed={[(round(t * 64, 3), k) for t, k in self.cancels]}; plan={self.world.notes}"
         )
         self.violation = Violation("stream-equality", msg, key=key)
@@ -395,7 +416,7 @@ async def _rx_body(world: World, backend: SimAsyncIOBackend, layer: Any, led: _L
                 continue
             else:  # pragma: no cover
                 raise HarnessError(f"unknown cancel kind {e!r}")
-        except StreamProtocolParseError as exc:
+        except Exception as exc:  # nothing may fail on a valid stream (TimeoutError of our own scopes is handled above)
             led.record_error(exc)
             return
         if data is None:
@@ -460,6 +481,116 @@ def _run(world: World, box: dict[str, Any], amain: Callable[[], Any]) -> None:
         raise led.violation
     if not led.eof:
         raise HarnessError(f"C10 {layer}: run ended without EOF and without violation")
+
+
+# ===================================================================================================== TLS layer
+class _TLSRecv:
+    mode = "bytes"
+    buffered = False
+
+    def __init__(self, into: bool):
+        self.into = into
+
+    async def recv1(self) -> bytes | None:
+        size = self.led.next_size()
+        if self.into:
+            buf = bytearray(size)
+            n = await self.tls.recv_into(buf)
+            return bytes(buf[:n]) or None
+        return (await self.tls.recv(size)) or None
+
+    async def close(self) -> None:
+        with self.tls.backend().move_on_after(5.0):
+            await self.tls.aclose()
+
+
+def _h_tls(world: World, name: str, into: bool) -> None:
+    """AsyncTLSStreamTransport.recv / recv_into over the adapter; the peer is the reference TLSPeer whose cipher-text
+    reaches the library through an AlignedFeed (whole records, or a record cut in two)"""
+    from easynetwork.lowlevel.api_async.transports.tls import AsyncTLSStreamTransport
+
+    from vsim.tls import TLSPeer, make_context
+
+    layer = _TLSRecv(into)
+    plan = _Plan(world, name, into=True, mode="bytes", buffered=False, kinds=_KINDS)
+    version = ("1.3", "1.2")[world.choose("tls.version", 2)]
+    lib_server = bool(world.choose("tls.lib_server", 2))
+    splits = [(world.choose("tls.split", 3), world.choose("tls.split.at", 1 << 10), world.choose("tls.split.gap", 3)) for _ in plan.chunks] if not plan.baseline else [(0, 0, 0)] * len(plan.chunks)
+    world.notes.update(tls=version, lib_server=lib_server)
+    net = SimNet(world)
+    backend = SimAsyncIOBackend(net)
+    lib, psock = net.socketpair()
+    peer = TLSPeer(world, psock, server_side=not lib_server, version=version, shape="eager")
+    box: dict[str, Any] = {"plan": plan}
+
+    async def amain() -> None:
+        loop = asyncio.get_running_loop()
+        tr = await backend.wrap_stream_socket(lib)
+        tls = await AsyncTLSStreamTransport.wrap(tr, make_context(lib_server, version), server_side=lib_server, server_hostname=None if lib_server else "sim.host", handshake_timeout=200000.0)
+        layer.tls = tls  # type: ignore[attr-defined]
+        pipe = psock.tx_pipe
+        assert pipe is not None
+        guard = 0
+        while not peer.engine.handshake_done or pipe.flight or pipe.rx or peer.out_pending:
+            await asyncio.sleep(TICK)
+            guard += 1
+            if guard > 1000:
+                raise HarnessError("C10 tls: handshake does not settle")
+        # from here on the harness decides when cipher-text becomes visible
+        pipe.delivery = Delivery(frag=5)
+        feed = box["feed"] = AlignedFeed(world, psock, align_den=plan.align_den)
+        led = box["led"] = layer.led = _Ledger(world, plan, feed)  # type: ignore[attr-defined]
+        captured: list[bytes] = []
+        peer.sink = captured.append
+        t0 = world.now
+        cum_map: list[int] = []
+        plain = 0
+        total_cipher = 0
+        for (tick, data, defer), (mode, at, gap) in zip(plan.chunks, splits):
+            peer.write(data)
+            cipher = b"".join(captured)
+            captured.clear()
+            if not cipher:
+                raise HarnessError("C10 tls: the reference peer produced no cipher-text for a write")
+            total_cipher += len(cipher)
+            if mode and len(cipher) > 1:
+                cut = 1 + at % (len(cipher) - 1)
+                feed.plan(t0 + tick * TICK, cipher[:cut], defer)
+                cum_map.append(plain)  # an incomplete record makes nothing readable
+                plain += len(data)
+                feed.plan(t0 + (tick + gap) * TICK, cipher[cut:], 0)
+                cum_map.append(plain)
+            else:
+                plain += len(data)
+                feed.plan(t0 + tick * TICK, cipher, defer)
+                cum_map.append(plain)
+        peer.close_notify()
+        alert = b"".join(captured)
+        captured.clear()
+        total_cipher += len(alert)
+        feed.plan(t0 + plan.fin_tick * TICK, alert, 0)
+        cum_map.append(plain)
+        feed.plan_fin(t0 + plan.fin_tick * TICK)
+        led.cum_map = cum_map
+        led.eof_ok = lambda: feed.total >= total_cipher  # EOF = the peer's close_notify, which precedes its FIN
+        loop.sim_selector.align = feed.on_wait  # type: ignore[attr-defined]
+        if not plan.baseline:
+            swarm_selector(world, loop.sim_selector)  # type: ignore[attr-defined]
+            loop.sim_selector.spurious_den = 0  # type: ignore[attr-defined]
+        spawned = 0
+        while not led.stopped:
+            spawned += 1
+            task = loop.create_task(_rx_body(world, backend, layer, led), name=f"c10-rx{spawned}")
+            try:
+                await task
+            except asyncio.CancelledError:
+                if not task.cancelled():
+                    raise
+                led.note_cancel("task.cancel")
+        peer.sink = None
+        await layer.close()
+
+    _run(world, box, amain)
 
 
 # ===================================================================================================== server layer
@@ -599,6 +730,8 @@ HARNESSES = [
     _mk_async("client-buffered", lambda: _Client("struct", True), True),
     _mk_async("client-iter-copy", lambda: _Client("struct", False), False, kinds=("iter",)),
     _mk_async("client-iter-buffered", lambda: _Client("line", True), True, kinds=("iter",)),
+    Harness("tls-recv", lambda w: _h_tls(w, "tls-recv", False)),
+    Harness("tls-recv_into", lambda w: _h_tls(w, "tls-recv_into", True)),
     Harness("server-copy", lambda w: _h_server(w, "server-copy", "line", False)),
     Harness("server-buffered", lambda w: _h_server(w, "server-buffered", "line", True), weight=2),
     Harness("blocking-endpoint-copy", lambda w: _h_sync(w, "blocking-endpoint-copy", "line", False)),
